@@ -45,6 +45,16 @@ CHECKS = {
  "C17": ("opspace", "exhaustive enumeration of boundary families (int64 edges x powers of ten, float64 values/midpoints/perturbations, DENSE+EDGE for Modf) on the real code against exact rational arithmetic",
          "Int64 on floor(2^63/10^k)+-2 x trailing zeros x boundary-crossing exponents x signs (never a wrapped value), constructors on the int64 boundary set, Float64 against big.Rat nearest-even on exact float values, float midpoints and +-1-unit perturbations and the overflow/underflow thresholds, Modf on DENSE(3,6)+EDGE with either output nil.",
          "big.Rat.Float64 is the nearest-even reference.", "4/C17"),
+
+ "C05": ("opspace", "bounded-exhaustive enumeration of operation x operands x context x alias pattern on the real code; differential oracle against the distinct-object execution",
+         "Every destination-writing operation x operand tuple x context x alias pattern {d==x, d==y, x==y, d==x==y} (and the Modf output shapes) is run on fresh objects and compared with the run on distinct objects holding equal values (result, Condition, error, integer results, deep snapshot of untouched operands); BigInt methods under receiver/argument aliasing are mirrored on math/big.",
+         "No reference model; only the enumerated operand/context product.", "4/C05"),
+ "C06": ("opspace", "bounded-exhaustive enumeration of operation x operands x context x destination pre-state on the real code, closed under the operations to depth 2; differential oracle plus deep snapshots",
+         "Every operation (Context operations, Decimal methods, Modf shapes, parsers, setters, Compose, Scan) x operands x contexts is executed once per destination pre-state (11 incl. NaN, dirty infinity, huge/heap coefficient, malformed garbage); outcomes must coincide and operands/Context stay bit-for-bit unchanged (hidden BigInt representation included); raw results of depth-1 operations are operands at depth 2 and are compared with freshly parsed equal values.",
+         "Package-global immutability is decided by the instrumented build (snapshot of every package-level variable); differential oracle otherwise.", "4/C06"),
+ "C08": ("opspace", "exhaustive enumeration of all operand pairs of a special-value alphabet x operations x contexts x trap sets on the real code against the GDA special-value table, closed to depth 2",
+         "All 22 Context operations on all ordered pairs of NaN/sNaN (signs, payloads), clean and dirty infinities, signed zeros of many exponents and finite values, in contexts incl. floor/ceiling and trap sets; result class, sign, propagated payload, exact condition set and error-iff-trapped are compared with the table; special results produced by depth-1 operations are fed back as operands.",
+         "Cbrt(-Inf) and signs of Neg/Ceil/Floor(0) not asserted; ordinary finite arithmetic delegated to C01/C02.", "4/C08"),
 }
 
 NOT_YET = {}
